@@ -93,12 +93,12 @@ Proof. unfold upd. intro H. apply Nat.eqb_neq in H. rewrite H. reflexivity. Qed.
 
 (* ------------------------------------------------------------------ inverting a step *)
 
-Ltac step_inv H :=
-  unfold step, wc in H;
+Ltac step_cases H :=
   repeat match type of H with
   | context [match ?x with _ => _ end] => destruct x eqn:?; try discriminate H
   end;
   inversion H; subst; clear H.
+Ltac step_inv H := unfold step, wc in H; step_cases H.
 
 (* ------------------------------------------------------------------ invariant A: control state *)
 
@@ -187,12 +187,13 @@ Ltac caller_goal HC :=
 Ltac invA_label HC :=
   match goal with
   | H : step _ _ ?l = Some _ |- _ =>
+      unfold step, wc in H;
       match l with
       | LWRun _ => idtac
       | ?f ?c => open_caller HC c
       | _ => idtac
       end;
-      step_inv H; bool_hyps
+      step_cases H; bool_hyps
   end.
 
 Lemma invA_step cf s l s' : InvA cf s -> step cf s l = Some s' -> InvA cf s'.
